@@ -1153,7 +1153,7 @@ def spec_validation(ck, rng, n):
 # ---------------------------------------------------------------------------------------------
 def fails_oracle(case, versions):
     r = run_case(case, versions)
-    return bool(r["oracle_bad"] or r["roundtrip_bad"] or r["reject_bad"] or r["crash"]), r
+    return bool(r["oracle_bad"] or r["roundtrip_bad"]), r
 
 
 def shrink(case, versions, budget=120):
